@@ -44,7 +44,10 @@ def strategy(tier, phase):
         st.tuples(st.just("e"), st.integers(0, 13), st.integers(0, 60), st.integers(0, 60), st.integers(0, 60)).map(list),
     )
     return st.fixed_dictionaries({"gen": st.sampled_from([2, 3, 3]), "tape": protogen.tape_strategy(300), "irv": st.sampled_from([0, 10, 11, 13]), "kind": st.integers(0, len(KINDS) - 1),
-                                  "which": st.integers(0, 1), "deep": st.booleans(), "ops": st.lists(op, min_size=1, max_size=8)})
+                                  "which": st.integers(0, 1), "deep": st.booleans(), "ops": st.lists(op, min_size=1, max_size=8),
+                                  # edits made to the model BEFORE it is cloned (what a pass pipeline has done to it by then), e.g. a node
+                                  # output that carries as const_value the very tensor object of a node attribute (constant propagation)
+                                  "pre": st.lists(st.tuples(st.integers(0, 60), st.integers(0, 60)).map(list), max_size=3)})
 
 
 def _all_graphs(model_or_graph):
@@ -71,6 +74,45 @@ def _values_of(graphs):
                 seen.add(id(v))
                 vals.append(v)
     return vals
+
+
+def _mask_attr_tensor_names(proto):
+    """Deterministic bytes of a Model/Graph/Function proto with the own names of attribute tensors cleared."""
+    import onnx
+
+    m = type(proto)()
+    m.CopyFrom(proto)
+
+    def walk(nodes):
+        for n in nodes:
+            for a in n.attribute:
+                if a.HasField("t"):
+                    a.t.ClearField("name")
+                for t in a.tensors:
+                    t.ClearField("name")
+                if a.HasField("g"):
+                    walk(a.g.node)
+                for sg in a.graphs:
+                    walk(sg.node)
+
+    if isinstance(m, onnx.ModelProto):
+        walk(m.graph.node)
+        for f in m.functions:
+            walk(f.node)
+    else:
+        walk(m.node)
+    return m.SerializeToString(deterministic=True)
+
+
+def _mask_attr_tensor_names_bytes(data, like):
+    import onnx
+
+    import onnx_ir as ir
+
+    cls = onnx.ModelProto if isinstance(like, ir.Model) else (onnx.FunctionProto if isinstance(like, ir.Function) else onnx.GraphProto)
+    m = cls()
+    m.ParseFromString(data)
+    return _mask_attr_tensor_names(m)
 
 
 def setter(graphs, op):
@@ -219,6 +261,26 @@ def execute(case):
     if _unsorted(model):
         # the cloner documents that it assumes topologically sorted graphs
         return dict(failures=[], nontrivial=False, classes=classes + ["unsorted_input_skipped"])
+    for a_, b_ in case.get("pre") or []:
+        try:
+            pre_nodes = [n_ for g_ in _all_graphs(model) for n_ in g_ if n_.outputs and n_.outputs[0].name]
+            if pre_nodes:
+                n_ = pre_nodes[a_ % len(pre_nodes)]
+                tens = [x.value for x in n_.attributes.values() if not x.is_ref() and x.type == ir.AttributeType.TENSOR and x.value is not None]
+                if tens and b_ % 2:
+                    t_ = tens[b_ % len(tens)]
+                else:
+                    t_ = ir.tensor([float(b_), 1.0], name=f"c13_attr_tensor{b_ % 3}")
+                    n_.attributes[f"c13_t{b_ % 2}"] = ir.AttrTensor(f"c13_t{b_ % 2}", t_)
+                n_.outputs[b_ % len(n_.outputs)].const_value = t_
+                classes.append("output_const_value_is_attribute_tensor")
+        except Exception:
+            pass
+    try:
+        ir.to_proto(model)  # (the documented side effect of serializing - initializer tensor names - happens here, once)
+        model_bytes_before = ir.to_proto(model).SerializeToString(deterministic=True)
+    except Exception:
+        model_bytes_before = None
     # --- clone ---------------------------------------------------------------------------------
     if deep:
         # analysis results kept in `meta` are often mutable containers: with deep_copy=True the clone must get its own
@@ -258,15 +320,15 @@ def execute(case):
 
             P = [pc.RemoveUnusedNodesPass, pc.NameFixPass, pc.ClearMetadataAndDocStringPass, pc.TopologicalSortPass][case["which"] % 4]
             u0 = U.Universe.from_model(model)
-            s0 = snapshot.take(u0, with_ids=False)
-            p0 = ir.to_proto(model).SerializeToString(deterministic=True)
+            s0 = c03._mask(snapshot.take(u0, with_ids=False))
+            p0 = _mask_attr_tensor_names(ir.to_proto(model))
             try:
                 res = passes.functionalize(P())(model)
             except Exception as e:
                 res = None
                 classes.append(f"pass_raised_{type(e).__name__}")
-            s1 = snapshot.take(u0, with_ids=False)
-            if s0 != s1 or ir.to_proto(model).SerializeToString(deterministic=True) != p0:
+            s1 = c03._mask(snapshot.take(u0, with_ids=False))  # (own names of shared tensors masked, see _mask_attr_tensor_names)
+            if s0 != s1 or _mask_attr_tensor_names(ir.to_proto(model)) != p0:
                 fails.append((f"functionalized-pass-altered-input/{P.__name__}", f"functionalize({P.__name__}) changed its input model: {snapshot.diff(s0, s1)}"[:500]))
             if res is not None and res.model is model:
                 fails.append((f"functionalized-pass-same-object/{P.__name__}", "functional pass returned the input model object"))
@@ -289,6 +351,19 @@ def execute(case):
             return dict(failures=[], nontrivial=False, classes=classes)
         return dict(failures=[(f"clone-raised/{kind}/{type(root).__name__}", f"{kind} raised {type(root).__name__}: {root}"[:300])], nontrivial=True, classes=classes)
 
+    # --- 0. cloning is a read-only operation on the original ---------------------------------------------------
+    if model_bytes_before is not None:
+        try:
+            if ir.to_proto(model).SerializeToString(deterministic=True) != model_bytes_before:
+                from vlib import protocanon
+                import onnx as _onnx
+
+                a0, a1 = _onnx.ModelProto(), ir.to_proto(model)
+                a0.ParseFromString(model_bytes_before)
+                d0 = protocanon.first_diff(a0, a1)
+                fails.append((f"cloning-changed-the-original/{d0[0] if d0 else '?'}", f"{kind}: the original model serializes differently after it was cloned: {d0[1] if d0 else ''}"[:400]))
+        except Exception:
+            pass
     # --- 1. serializes identically -----------------------------------------------------------------
     def ser(x):
         if isinstance(x, ir.Model):
@@ -407,7 +482,10 @@ def execute(case):
         fails.append((f"not-independent/{','.join(fields)[:60]}", f"{kind}: editing the {'clone' if case['which'] % 2 == 0 else 'original'} with {applied} changed the other copy: {snapshot.diff(s_before, s_after)}"[:600]))
     elif p_before is not None:
         try:
-            if ser(other).SerializeToString(deterministic=True) != p_before:
+            # tensors are shared between a clone and its original by design, and renaming a value renames the tensor it
+            # holds: the own names of attribute tensors are therefore masked (a Constant's attribute tensor is often
+            # the const_value of its output); clause 0 above compares them unmasked for the act of cloning itself
+            if _mask_attr_tensor_names(ser(other)) != _mask_attr_tensor_names_bytes(p_before, other):
                 fails.append(("not-independent/serialized", f"{kind}: editing one copy with {applied} changed how the other serializes"))
         except Exception:
             pass
